@@ -117,6 +117,50 @@ def run(ctx, out):
         if r.exit == 0:
             out.violation("a block device in the tree did not make the run fail", dict(argv=argv, exit=r.exit))
         shutil.rmtree(d, ignore_errors=True)
+    # trees in which special nodes travel with ordinary files of every mode (private 0600 ones among them), several workers,
+    # threads held at random and at every umask() call the program might make: the mode of a node depends on the source's
+    # mode and the umask xcp was STARTED with, never on what another worker is doing at that moment
+    for k in range(4 if quick else 40):
+        for umask in (0o022, 0):
+            d = os.path.join(d0, "mix%d_%o" % (k, umask))
+            os.makedirs(os.path.join(d, "src", "sub"))
+            nodes = {}
+            for i in range(8):
+                rel = ("n%d" % i) if i % 2 else os.path.join("sub", "n%d" % i)
+                kind = ["fifo", "sock", "chr"][i % 3]
+                mode = rng.choice([0o644, 0o666, 0o664, 0o646, 0o755, 0o640])
+                dev = rng.choice([(1, 3), (1, 5), (300, 70000)])
+                mk(kind, os.path.join(d, "src", rel), mode, dev)
+                nodes[rel] = (kind, mode, dev)
+                for j in range(3):
+                    fp = os.path.join(d, "src", os.path.dirname(rel), "f%d_%d" % (i, j))
+                    open(fp, "wb").write(b"x" * rng.randrange(1, 9000))
+                    os.chmod(fp, rng.choice([0o600, 0o600, 0o644, 0o400, 0o700]))
+            driver = "parfile" if k % 3 else "parblock"
+            w = rng.choice([2, 4, 8])
+            argv = [ctx.bins["xcp"], "-r", "-T", "--driver", driver, "-w", str(w), os.path.join(d, "src"), os.path.join(d, "dst")]
+            r = xcp.run_supervised(sup, argv, d, d, tag="x", umask=umask, timeout_ms=60000, seed=rng.randrange(1 << 30),
+                                   hold_permille=150, hold_maxms=4, rules=[("hold", 15, 0, "umask", 0, "*")])
+            out.case(("mixed-tree", k, umask, driver, w), True)
+            out.count("mixed_trees")
+            rep = dict(argv=argv[1:], umask=oct(umask), nodes={a: (b[0], oct(b[1])) for a, b in nodes.items()}, exit=r.exit, stderr=r.stderr[-300:])
+            if r.exit != 0:
+                out.violation("copy of a tree with special files failed: exit %d" % r.exit, rep)
+            else:
+                for rel, (kind, mode, dev) in nodes.items():
+                    try:
+                        st = os.lstat(os.path.join(d, "dst", rel))
+                    except OSError:
+                        out.violation("exit 0 but no node at dst/%s" % rel, rep)
+                        break
+                    exp_mode = mode & ~umask
+                    if stat.S_IFMT(st.st_mode) != SIFMT[kind] or stat.S_IMODE(st.st_mode) != exp_mode or \
+                            (kind == "chr" and st.st_rdev != os.makedev(*dev)):
+                        out.violation("node dst/%s: type/mode/device %o %o %s, expected %o %o (umask %o) — in a tree copied by %d workers"
+                                      % (rel, stat.S_IFMT(st.st_mode), stat.S_IMODE(st.st_mode), (os.major(st.st_rdev), os.minor(st.st_rdev)),
+                                         SIFMT[kind], exp_mode, umask, w), rep)
+                        break
+            shutil.rmtree(d, ignore_errors=True)
     if ctx.model_ok and minputs:
         res = core.run_model("run_node", minputs, shard=40, tag="c14")
         for (rep, exitc, st, nacts, c), mo in zip(obs, res):
